@@ -148,7 +148,7 @@ def main():
         "checks": checks,
         "not_applicable": na,
         "notes": "All checks: exit 0 held / 1 VIOLATION line / 2 harness or build trouble. VERIF_SEED selects the batch; VERIF_REPO overrides /repo. "
-                 "Open known findings (KNOWN-FINDING lines, exit 0): see known_findings.json. Sensitivity: seeded/ (232 changes from independent sub-agents: 226 detected by a quick check, 1 more by the thorough tier, 5 not, see DESIGN.md section 9), "
+                 "Open known findings (KNOWN-FINDING lines, exit 0): see known_findings.json. Sensitivity: seeded/ (253 changes from independent sub-agents: 246 detected by a quick check, 1 more by the thorough tier, 6 not, see DESIGN.md section 9), "
                  "benign/ (36 behaviour-preserving refactors by independent sub-agents, all 14 checks silent on each), tools/revert_fixes.sh. fix: commits in /repo: " + "; ".join(fixes),
     }
     with open(os.path.join(VERIF, "MANIFEST.json"), "w") as f:
